@@ -155,7 +155,7 @@ pub assume_specification<Idx: Clone> [<std::ops::Range<Idx> as Clone>::clone] (r
     u.add(im)
     u.raw(FOOTER)
     u.assume('external_body', 'brush_parser::tokenize_str_with_options and brush_parser::word::parse are stubs whose results are ASSUMED well-formed (tokens_sortable: token offsets inside the text, pairwise disjoint, same-start tokens only after an empty one — NOT ordered; pieces_wf: offsets inside the word, ordered, nested, a `$(..)` command fits between its delimiters); slice::sort_by_key is a stub stating the documented behaviour of std (stable permutation sorted by key); get_kind_for_word is an arbitrary kind; the char->byte offset table and str::get(..).unwrap_or("") are R14/R19 stubs')
-    u.assume('assume_specification', 'Range::<usize>::is_empty() == !(start < end)')
+    u.assume('assume_specification', 'Range::<usize>::is_empty() == !(start < end); String::len is the length in bytes')
     u.assume('axiom', 'meaning of Range::is_empty at usize; a string has at most isize::MAX bytes')
     u.assume('uninterp', 'range_is_empty_spec, CharByteOffsets::text')
     u.assume('stub', 'character boundaries of span ends are NOT claimed here (piece offsets from the word parser are not known to be boundaries); Arc<SourcePosition> is projected to SourcePosition')
